@@ -509,6 +509,9 @@ def run_c04(ctx):
             ctx.distinct(('impl', json.dumps(h.cfg, sort_keys=True), json.dumps([e for e in h.events if e['type'] in ('flip', 'lose', 'add', 'start')], sort_keys=True)))
     for n, traces in sorted(groups.items()):
         judge(ctx, wd, traces, n, 'rnd%d' % n)
+    ctx.cov['exhaustive'] = True
+    ctx.cov['explanation'] = ('exhaustive for the TLC configurations listed in tlc_runs (all histories of the bounded model) and for the '
+                              'systematic 3-task family (graph x listing order x lost file); random histories beyond them')
     smp = groups[4][0]
     ctx.sample(dict(cfg=smp['cfg'], events=[e if e['type'] not in ('start', 'end') else dict(type=e['type'], st=[x['st'] for x in e['env']])
                                             for e in smp['events']]))
